@@ -241,8 +241,10 @@ func c10Layout(nPlace, nEnc int, response bool) (spans []c10Span, total int) {
 	spans = append(spans,
 		c10Span{pos, pos + 2, "authenticator type word mutated", false, f, true},
 		c10Span{pos + 2, pos + 4, "authenticator length word mutated", false, f, true},
-		c10Span{pos + 4, pos + 6, "nonce-length word mutated", false, f, true},
-		c10Span{pos + 6, pos + 8, "ciphertext-length word mutated", false, f, true},
+		// the two inner length words decide which bytes are the nonce and the ciphertext: changing
+		// one changes the nonce or the ciphertext the receiver verifies
+		c10Span{pos + 4, pos + 6, "nonce-length word mutated", true, "nonce", true},
+		c10Span{pos + 6, pos + 8, "ciphertext-length word mutated", true, "ciphertext", true},
 		c10Span{pos + 8, pos + 24, "nonce mutated", true, "nonce", false},
 		c10Span{pos + 24, pos + 24 + 16 + ptLen, "ciphertext mutated", true, "ciphertext", false})
 	return spans, pos + 24 + 16 + ptLen
